@@ -26,7 +26,10 @@ def gen_case(rng, eq):
         if not c["vector_alpha"]:
             c["nus"][1] = c["nus"][0]
     elif eq == "glv":
-        m = rng.randint(1, 3)
+        m = rng.randint(1, 4)
+        # population k is called names[k]: any key layout, the other populations listed in any (not necessarily sorted) order
+        names = rng.sample(["0", "1", "2", "9", "10", "a", "b", "B", "prey", "z"], m)
+        c.update(names=names)
         # positive polynomials of t on [0, 1]
         polys = [{(0,): rng.randint(2, 5), (1,): rng.randint(0, 3), (2,): rng.randint(0, 2)} for _ in range(m)]
         c.update(d=0, polys=polys, pt=[rng.randint(0, 4) / 4], nus=[dy(rng), dy(rng)] + [dy(rng) for _ in range(m)],
@@ -59,14 +62,15 @@ def evaluate(c):
         return [float(v) for v in np.asarray(L.evaluate(t, x, u, P)).ravel()]
     if eq == "glv":
         m = len(c["polys"])
-        us = {str(k): mk([c["polys"][k]], "ODE") for k in range(m)}
+        nm = c.get("names") or [str(k) for k in range(m)]
+        us = {nm[k]: mk([c["polys"][k]], "ODE") for k in range(m)}
         main = {"growth_rate": A(nus[0]), "carrying_capacity": A(nus[1]), "interactions": jnp.array(nus[2:2 + m])}
         if c["shared_params"]:
             eqp = main
         else:
-            eqp = {str(k): (main if k == 0 else {"growth_rate": A(9.0), "carrying_capacity": A(9.0), "interactions": jnp.ones((m,)) * 9.0}) for k in range(m)}
+            eqp = {nm[k]: (main if k == 0 else {"growth_rate": A(9.0), "carrying_capacity": A(9.0), "interactions": jnp.ones((m,)) * 9.0}) for k in range(m)}
         PD = ParamsDict(nn_params={k: u.init_params() for k, u in us.items()}, eq_params=eqp)
-        L = jinns.loss.GeneralizedLotkaVolterra(key_main="0", keys_other=[str(k) for k in range(1, m)], Tmax=c["tmax"])
+        L = jinns.loss.GeneralizedLotkaVolterra(key_main=nm[0], keys_other=[nm[k] for k in range(1, m)], Tmax=c["tmax"])
         return [float(v) for v in np.asarray(L.evaluate(jnp.array([pt[0]]), us, PD)).ravel()]
     x = jnp.array(pt)
     if eq == "mass":
@@ -145,7 +149,7 @@ def generate(tier, seed, casedir, variant):
     viol += manufactured(rng, nm)
     write_cases(casedir, "C02", "R_C02", variant, cases, chunk=120)
     return dict(meta=meta, oracle_violations=viol, evaluations=len(cases) + nm, distinct_nontrivial=len(nontrivial), samples=samples, distribution=dist,
-                rule="per equation: random integer-coefficient polynomial candidate solutions (positive ones for Lotka-Volterra), dyadic points and parameters, Tmax in {1, 2, 1/2, 10}, scalar and vector drift parameters, shared and per-network parameter layouts; non-trivial = non-zero residual; plus exact heat-equation solutions on which the Fisher-KPP residual must vanish (oracle only)",
+                rule="per equation: random integer-coefficient polynomial candidate solutions (positive ones for Lotka-Volterra), dyadic points and parameters, Tmax in {1, 2, 1/2, 10}, scalar and vector drift parameters, shared and per-network parameter layouts, 1..4 Lotka-Volterra populations under arbitrary key names listed in any order; non-trivial = non-zero residual; plus exact heat-equation solutions on which the Fisher-KPP residual must vanish (oracle only)",
                 oracle_checks=nm)
 
 
